@@ -14,7 +14,12 @@
    (cfg); `fixed` is the code WITH the patches (the theorems of Props/C06.v are about `fixed`),
    `legacy` is the code before them (Props/C06.v keeps the `_refuted` witnesses for it).  The
    harness determines the switches of the tree under test by three probes and evaluates the model
-   with exactly these, so the correspondence run is meaningful on either tree.
+   with exactly these, so the correspondence run is meaningful on either tree.  (When this file was
+   written /repo did not have the patches yet: its probes give `legacy`, a scratch copy with
+   F06a-c applied gives `fixed`; both runs had no mismatch.)
+   Recursion through lists and dicts goes through the comprehension combinators below (their
+   function argument is bound outside their `fix`, which is what the guard checker needs for the
+   nested recursion on `value` / `json`).
 
    Modelling notes (also in Props/C06.v):
    * Python dicts are association lists in insertion order with pairwise distinct keys; the dict
